@@ -16,6 +16,26 @@ CLAIMED = {
         "and the round-trip oracle is evaluated on the implementation alone.",
    technique="Lean 4 proof (structural induction over the codec) + differential correspondence model↔implementation",
    design="§5 C01"),
+ "C02": dict(
+   text="Theorems (Props/C02.lean): whatever Pose.write produces equals specFile, a total encoder written in Lean from docs/specs/v0.2.md field by field (write_layout); "
+        "every file of that encoder for a representable well-shaped pose is read to exactly its content (read_of_reference); re-writing what a full read returned from a file whose "
+        "version field is the 0.2 pattern reproduces the consumed bytes (rewrite_identity, write_read_write). The implementation's bytes are compared with the Lean encoder and with a second "
+        "independent Python encoder, and reference files are read and re-written by the implementation.",
+   technique="Lean 4 proof (encoder/decoder inverse in both directions) + differential correspondence against two independent reference encoders",
+   design="§5 C02"),
+ "C03": dict(
+   text="Theorems (Props/C03.lean): a windowed BufferReader read is the slice [start, min(end,total)) of the full read (window_eq_slice); the BytesIOReader state machine returns whatever the "
+        "BufferReader returns for every reader program, file size and cache state (stream_eq_bytes, a simulation proof with the alignment invariant); cache neutrality; rejected windows are the failing "
+        "program for either reader; bytes pulled ≤ prefetch + bytes decoded. The time→frame map is abstract in the theorems (evaluated with Float in the driver). Model and implementation are compared on "
+        "value AND bytes pulled for every generated (file, window, source, cache).",
+   technique="Lean 4 proof (simulation between two reader state machines, induction over reader programs) + differential correspondence incl. bytes pulled",
+   design="§5 C03"),
+ "C07": dict(
+   text="Theorems (Props/C07.lean): no proper prefix of a written file is accepted by a full read (truncated_rejected, from extension/consumption of blind skip-free reader programs), "
+        "appended bytes do not change the result (trailing_ignored). The windowed-stream clause (raises or equals the intact file's window) is covered by the correspondence and the oracle on the "
+        "implementation only — partial. Every cut offset of small files and every field boundary ±1 of large ones is read through both readers and three cache states.",
+   technique="Lean 4 proof (generic truncation argument over reader programs) + exhaustive cut-offset enumeration on the implementation",
+   design="§5 C07"),
 }
 
 checks = []
